@@ -743,6 +743,9 @@ class Interp:
         return PSet(out)
 
     def e_DictComp(self, node, frame):
+        hook = self._comp_model(node, frame)
+        if hook is not None:
+            return hook
         d = PDict()
 
         def emit(fr):
@@ -750,6 +753,24 @@ class Interp:
             d.d[k] = self.eval(node.value, fr)
         self._comp(node, frame, emit)
         return d
+
+    def _comp_model(self, node, frame):
+        """contract supplied model of a comprehension over a symbolic
+        collection (keyed by the unparsed comprehension text)"""
+        f = frame
+        key = None
+        while f is not None and key is None:
+            key = f.fkey
+            f = f.parent
+        con = C.REGISTRY.get(key) or C.REGISTRY.get(self.top_key)
+        models = getattr(con, "comprehensions", None) if con is not None else None
+        if not models:
+            return None
+        text = ast.unparse(node)
+        for pat, fn in models.items():
+            if pat in text:
+                return fn(self, frame, node)
+        return None
 
     def _symbolic_comp(self, node, frame):
         """[elt for x in <symbolic seq>] (single generator): handled as a
